@@ -6,7 +6,7 @@ PROPS = ["Props/C04.v"]
 
 def run(ctx):
     schedcheck.run(ctx, "C04", PROPS,
-                   [("deps", 150, 1500), ("coredeps", 80, 800), ("core", 40, 400), ("alap", 100, 1000), ("alapcore", 100, 1000), ("sd", 60, 600), ("dupprec", 60, 500), ("taskalap", 40, 400), ("subslot", 40, 300), ("alapnest", 100, 800)],
+                   [("deps", 150, 1500), ("coredeps", 80, 800), ("core", 40, 400), ("alap", 100, 1000), ("alapcore", 100, 1000), ("sd", 60, 600), ("dupprec", 60, 500), ("taskalap", 40, 400), ("subslot", 40, 300), ("alapnest", 100, 800), ("maxgapdeps", 100, 800)],
                    ["c04"],
                    ["edges are re-derived from the abstract project (own, inherited from every ancestor, 'precedes' inverted)",
                     "the theorem covers forward mode in the whole-slot dialect; backward (ALAP) mode, mid-slot gaps and milestones are checked on the implementation by the oracle only",
